@@ -5,7 +5,10 @@
 //! library's own builders. Verdicts of the library are compared with an
 //! explicit model (conditions listed in the property statement); every
 //! library-built object is additionally verified by the harness' own CMS
-//! verifier (`der::CmsView::verify`).
+//! verifier (`der::CmsView::verify`). In relaxed (BER) mode part of the
+//! independent-writer objects carry their eContent as a constructed OCTET
+//! STRING (`Seg`): accepting those is not demanded, accepting one whose
+//! digest attribute covers only part of the segments is forbidden.
 
 use std::cell::RefCell;
 use std::sync::OnceLock;
@@ -43,17 +46,28 @@ revocation set (EE serial listed or not, issuer serial listed or not) and record
 plus one of 15 single-point tampers, among them message-digest attributes of the wrong length that agree with the real \
 digest where they overlap (first 0/1/16/31 octets; digest + 1..8 octets; empty digest with the content swapped after \
 signing), signed correctly by the EE key; oracle = accept iff (no tamper and time in window and EE resources acceptable and \
-EE serial not revoked), and the callback is asked exactly about the embedded EE certificate. roa/aspa/manifest: typed \
+EE serial not revoked), and the callback is asked exactly about the embedded EE certificate. BER-segmented content \
+(relaxed decoding only, never strict; about 28 % of the relaxed generic cases, about 20 % of the relaxed roa/aspa/manifest \
+cases, independent writer only): the eContent OCTET STRING in constructed form (24 len or 24 80 .. 00 00) cut at 0..4 points \
+(also at offset 0 / at the end / twice at one offset) with up to two more segments without data, in any combination with \
+the tampers; honest flavour = digest attribute over all segments: the object may be accepted or not (RFC 6488 demands DER), \
+but if it is, content(), its iter()/len() and what process() returns must be the concatenation of all segments and the typed \
+values the encoded ones; dishonest flavour = digest attribute = SHA-256 of the octets before the first empty segment, of \
+the first k or of the last segments only (a proper part of the content), signed correctly by the EE key: must be rejected. \
+For every accepted object of every sub-check: SHA-256 of the content the library hands out (typed objects: of the eContent \
+as the harness parser reads it) equals the message-digest attribute in the object (c02:accepted-digest-mismatch). \
+roa/aspa/manifest: typed \
 contents from the independent writer and from RoaBuilder / AspaBuilder / ManifestContent::into_manifest (the latter \
 tampered by bit flips or re-wrapped by der.rs with a wrong-length digest re-signed by the EE's pool key); ROA prefixes \
 drawn relative to the EE resources (equal, more specific, wider, other, other family); oracle adds coverage by an interval \
 model; manifests go through Manifest::validate_at (sid and all other tampers). built: SignedObjectBuilder::finalize with \
 the same content-type size classes; oracle = harness' own CMS verifier (DER SET OF re-encoding + RSA via aws-lc-rs) accepts \
 and the library accepts iff in window and untampered. non-trivial = signed attributes >= 128 bytes, or typed content with \
->= 2 prefixes / providers / entries, or any tamper.";
+>= 2 prefixes / providers / entries, or any tamper, or a digest attribute over part of the segmented content.";
 
 pub const SIG_F12: &str = "sigattrs-long-form-length";
 pub const SIG_CRL_CERT: &str = "c02:crl-callback-wrong-cert";
+pub const SIG_ACCEPTED_DIGEST: &str = "c02:accepted-digest-mismatch";
 
 /// Serial numbers of the certificates in play: trust anchors, EE certificates
 /// of `build_ee`, EE certificates made by the library's builders.
@@ -734,6 +748,146 @@ pub fn eval_strategy() -> BoxedStrategy<Eval> {
     .boxed()
 }
 
+//------------ BER-segmented eContent (relaxed decoding only) --------------------------
+
+/// Which octets the message-digest attribute of an object with segmented
+/// eContent is computed over. Everything but `All` signs (correctly, with
+/// the EE key) a digest of only part of the content.
+#[derive(Clone, Copy, Debug, Default, PartialEq, Eq, Serialize, Deserialize)]
+pub enum SegDigest {
+    /// all segments: the digest of the content
+    #[default]
+    All,
+    /// the segments in front of the first segment without data
+    BeforeEmpty,
+    /// the first k segments (k = pick_idx(raw, n): at least the last one is left out)
+    Prefix(u16),
+    /// the segments from index k on (k = 1 + pick_idx(raw, n): at least the first one is left out)
+    Suffix(u16),
+}
+
+/// eContent written as a BER constructed OCTET STRING (`24 ..` holding
+/// primitive segments `04 ..`). Plain data, resolved against the length of
+/// the content when the object is assembled.
+#[derive(Clone, Debug, Default, PartialEq, Eq, Serialize, Deserialize)]
+pub struct Seg {
+    /// cut points: each maps to the offset pick_idx(raw, len + 1) of the
+    /// content; equal offsets (and offsets 0 / len) give segments without data
+    pub cuts: Vec<u16>,
+    /// additional segments without data, each inserted at index
+    /// pick_idx(raw, n + 1) of the list of segments made so far
+    #[serde(default)]
+    pub empties: Vec<u16>,
+    #[serde(default)]
+    pub digest: SegDigest,
+    /// `24 80 .. 00 00` instead of a definite length
+    #[serde(default)]
+    pub indefinite: bool,
+}
+
+impl Seg {
+    /// Segment lengths for `der::Cms::encode_segmented` (they add up to `len`).
+    pub fn lens(&self, len: usize) -> Vec<u16> {
+        let mut pos: Vec<usize> = self.cuts.iter().map(|&c| pick_idx(c, len + 1)).collect();
+        pos.sort_unstable();
+        let mut lens: Vec<u16> = Vec::new();
+        let mut prev = 0usize;
+        for p in pos {
+            let n = (p - prev).min(u16::MAX as usize);
+            lens.push(n as u16);
+            prev += n;
+        }
+        if prev < len || lens.is_empty() {
+            lens.push((len - prev).min(u16::MAX as usize) as u16);
+        }
+        for &e in &self.empties {
+            let at = pick_idx(e, lens.len() + 1);
+            lens.insert(at, 0);
+        }
+        lens
+    }
+
+    pub fn segments(&self, content: &[u8]) -> Vec<Vec<u8>> {
+        der::split_segments(content, &self.lens(content.len()))
+    }
+
+    /// The octets the message-digest attribute is computed over.
+    pub fn digest_part(&self, content: &[u8]) -> Vec<u8> {
+        let segs = self.segments(content);
+        let n = segs.len();
+        match self.digest {
+            SegDigest::All => content.to_vec(),
+            SegDigest::BeforeEmpty => segs.iter().take_while(|s| !s.is_empty()).flatten().copied().collect(),
+            SegDigest::Prefix(r) => segs[..pick_idx(r, n)].concat(),
+            SegDigest::Suffix(r) => segs[(1 + pick_idx(r, n)).min(n)..].concat(),
+        }
+    }
+
+    /// The digest attribute covers less than the content: the condition
+    /// "message-digest attribute equals the SHA-256 of the content" is violated.
+    pub fn dishonest(&self, content: &[u8]) -> bool {
+        self.digest_part(content) != content
+    }
+
+    /// A segment without data that is followed by one with data.
+    pub fn empty_before_data(&self, content: &[u8]) -> bool {
+        let segs = self.segments(content);
+        match segs.iter().position(|s| s.is_empty()) {
+            Some(i) => segs[i..].iter().any(|s| !s.is_empty()),
+            None => false,
+        }
+    }
+}
+
+/// Honest 4 : digest of what precedes the first empty segment 3 : of the
+/// first segments 2 : of the last segments 1; one to four cut points, up to
+/// two extra empty segments (at least one for the second flavour); one in
+/// five with an indefinite length.
+pub fn seg_strategy() -> BoxedStrategy<Seg> {
+    let cut = prop_oneof![6 => any::<u16>(), 1 => Just(0u16), 1 => Just(u16::MAX)];
+    let flavour = prop_oneof![
+        4 => Just(SegDigest::All),
+        3 => Just(SegDigest::BeforeEmpty),
+        2 => any::<u16>().prop_map(SegDigest::Prefix),
+        1 => any::<u16>().prop_map(SegDigest::Suffix),
+    ];
+    (
+        prop::collection::vec(cut, 0..=4),
+        prop::collection::vec(any::<u16>(), 0..=2),
+        1u16..u16::MAX,
+        flavour,
+        prop::bool::weighted(0.2),
+    )
+        .prop_map(|(cuts, mut empties, inner, digest, indefinite)| {
+            if digest == SegDigest::BeforeEmpty && empties.is_empty() {
+                empties.push(inner);
+            }
+            Seg { cuts, empties, digest, indefinite }
+        })
+        .boxed()
+}
+
+/// Segmentation is only ever applied to objects of the independent writer
+/// that are decoded in relaxed (BER) mode.
+pub fn opt_seg_strategy(share: f64) -> BoxedStrategy<Option<Seg>> {
+    prop::option::weighted(share, seg_strategy()).boxed()
+}
+
+fn label_seg(obs: &mut Obs, seg: Option<&Seg>, content: &[u8]) -> bool {
+    let Some(s) = seg else { return false };
+    let dishonest = s.dishonest(content);
+    let n = s.segments(content).len();
+    obs.label("seg");
+    obs.label(if dishonest { "seg:dishonest" } else { "seg:honest" });
+    obs.label_if(dishonest && s.digest == SegDigest::BeforeEmpty, "seg:digest-before-empty");
+    obs.label_if(dishonest && matches!(s.digest, SegDigest::Prefix(_)), "seg:digest-prefix");
+    obs.label_if(dishonest && matches!(s.digest, SegDigest::Suffix(_)), "seg:digest-suffix");
+    obs.label_if(!dishonest && s.empty_before_data(content), "seg:honest-empty-before-data");
+    obs.label_if(n >= 3, "seg:>=3-segments");
+    obs.label_if(s.indefinite, "seg:indefinite");
+    dishonest
+}
+
 //------------ tampering ---------------------------------------------------------------
 
 #[derive(Clone, Copy, Debug, PartialEq, Eq, Serialize, Deserialize)]
@@ -992,6 +1146,22 @@ pub fn assemble(
     opts: Opts,
     tamper: Tamper,
 ) -> Result<(Vec<u8>, usize), Fail> {
+    assemble_seg(ct, content, ee, opts, tamper, None)
+}
+
+/// Same, with the eContent optionally written as a BER constructed OCTET
+/// STRING. The message-digest attribute covers the part of the content
+/// `seg.digest` names and the signature is made over those attributes (a
+/// digest tamper replaces the attribute once more). A `ContentFlip` changes
+/// a bit of the data inside a segment, not of the segment headers.
+pub fn assemble_seg(
+    ct: &[u8],
+    content: &[u8],
+    ee: &EeSpec,
+    opts: Opts,
+    tamper: Tamper,
+    seg: Option<&Seg>,
+) -> Result<(Vec<u8>, usize), Fail> {
     let mut content = content.to_vec();
     if content.is_empty() && matches!(tamper, Tamper::ContentFlip(_)) {
         content.push(0x5A);
@@ -1000,6 +1170,13 @@ pub fn assemble(
     let cert_der = cert.to_captured().into_bytes().to_vec();
     let key = ee.key as usize % POOL_SIZE;
     let mut cms = Cms::standard(ct, &content, cert_der, vec![], key, opts.st(), &[], opts.cms());
+    if let Some(s) = seg {
+        let part = s.digest_part(&content);
+        if part != content {
+            cms.attrs[1] = der::attr_message_digest(&keys::sha256(&part));
+            cms.signature = keys::raw_sign(key, &der::attrs_to_be_signed(&cms.attrs));
+        }
+    }
     match tamper {
         Tamper::DigestAttr => {
             let mut other = content.clone();
@@ -1027,18 +1204,43 @@ pub fn assemble(
         _ => {}
     }
     let attrs_len = der::attrs_content_len(&cms.attrs);
-    let mut bytes = cms.encode();
-    tamper_bytes(&mut bytes, tamper)?;
+    let bytes = match seg {
+        None => {
+            let mut bytes = cms.encode();
+            tamper_bytes(&mut bytes, tamper)?;
+            bytes
+        }
+        Some(s) => {
+            // the segments are cut from the content as it was signed
+            let lens = s.lens(content.len());
+            if let Tamper::ContentFlip(f) = tamper {
+                let n = cms.content.len();
+                flip_in(&mut cms.content, (0, n), f)?;
+                cms.encode_segmented(&lens, s.indefinite)
+            } else {
+                let mut bytes = cms.encode_segmented(&lens, s.indefinite);
+                tamper_bytes(&mut bytes, tamper)?;
+                bytes
+            }
+        }
+    };
     Ok((bytes, attrs_len))
 }
 
 /// Self-consistency of the harness: its own verifier accepts what its writer
 /// produced and notices every CMS-level tamper.
 fn check_own_verifier(bytes: &[u8], tamper: Tamper) -> CheckResult {
+    check_own_verifier_seg(bytes, tamper, false)
+}
+
+/// `dishonest`: the digest attribute covers only part of the segmented content.
+fn check_own_verifier_seg(bytes: &[u8], tamper: Tamper, dishonest: bool) -> CheckResult {
     match der::cms_parse(bytes) {
         Ok(v) => {
             let r = v.verify();
-            if tamper == Tamper::None || !tamper.cms_level() && !matches!(tamper, Tamper::CertTbsFlip(_)) {
+            if dishonest {
+                ensure!(r.is_err(), "harness verifier does not notice a digest over part of the segmented content");
+            } else if tamper == Tamper::None || !tamper.cms_level() && !matches!(tamper, Tamper::CertTbsFlip(_)) {
                 ensure!(r.is_ok(), "harness verifier rejects an object of the harness writer: {:?}", r);
             } else if tamper.cms_level() {
                 ensure!(r.is_err(), "harness verifier does not notice {}", tamper.label());
@@ -1155,14 +1357,66 @@ fn compare(
     Ok(())
 }
 
+/// "Accepted exactly when its message-digest attribute equals the SHA-256 of
+/// the content ...": of an accepted object, the SHA-256 of the content the
+/// library hands out (`handed_out`; for the typed objects, whose decoded
+/// values are compared field by field, the eContent as the harness' own
+/// parser reads it) is the value of the message-digest attribute in the
+/// object. Not applied after a bit flip inside the attributes (what is in
+/// the object then is not what was signed; the verdict comparison deals
+/// with it), nor to objects the harness parser cannot read.
+fn check_accepted_digest(what: &str, bytes: &[u8], tamper: Tamper, handed_out: Option<&[u8]>) -> CheckResult {
+    if matches!(tamper, Tamper::AttrsFlip(_)) {
+        return Ok(());
+    }
+    let Ok(view) = der::cms_parse(bytes) else { return Ok(()) };
+    let md = view.attr_values(oids::MESSAGE_DIGEST);
+    if md.len() != 1 || md[0].len() != 1 {
+        return Ok(());
+    }
+    let Ok(value) = der::parse_exact(&md[0][0]) else { return Ok(()) };
+    let Some(signed) = value.prim_bytes() else { return Ok(()) };
+    let content = handed_out.unwrap_or(&view.content);
+    let digest = keys::sha256(content);
+    ensure_sig!(
+        digest.as_slice() == signed,
+        SIG_ACCEPTED_DIGEST,
+        "{}: object accepted although its message-digest attribute is not the SHA-256 of the content: the library hands out {} \
+         octets with SHA-256 {:02x?}, the attribute says {:02x?} (eContent as the harness parser reads it: {} octets)",
+        what, content.len(), digest, signed, view.content.len()
+    );
+    Ok(())
+}
+
+/// `compare` for objects whose eContent is BER-segmented: RFC 6488 demands
+/// DER, so an object that meets all conditions may be accepted or not
+/// (`optional`); one that violates a condition must still be rejected.
+fn compare_seg(
+    what: &str,
+    expect: bool,
+    optional: bool,
+    got: &Result<(), String>,
+    attrs_len: usize,
+    detail: &dyn Fn() -> String,
+) -> CheckResult {
+    if expect && optional {
+        return Ok(());
+    }
+    compare(what, expect, got, attrs_len, detail)
+}
+
 fn label_common(obs: &mut Obs, tamper: Tamper, attrs_len: usize, expect: bool, strict: bool) {
+    label_common_seg(obs, tamper, attrs_len, expect, false, strict)
+}
+
+fn label_common_seg(obs: &mut Obs, tamper: Tamper, attrs_len: usize, expect: bool, optional: bool, strict: bool) {
     obs.label(tamper.label());
     obs.label_if(attrs_len >= 128, "attrs>=128");
     obs.label_if((126..=129).contains(&attrs_len), "attrs-126..129");
     obs.label_if(attrs_len >= 256, "attrs>=256");
     obs.label_if((254..=258).contains(&attrs_len), "attrs-254..258");
     obs.label_if(attrs_len == 256, "attrs=256");
-    obs.label(if expect { "expect-accept" } else { "expect-reject" });
+    obs.label(if !expect { "expect-reject" } else if optional { "expect-either" } else { "expect-accept" });
     obs.label(if strict { "strict" } else { "relaxed" });
 }
 
@@ -1184,6 +1438,9 @@ pub struct Generic {
     /// the revocation set also holds the issuer certificate's serial
     #[serde(default)]
     pub issuer_revoked: bool,
+    /// eContent in BER constructed form (only with `strict == false`)
+    #[serde(default)]
+    pub seg: Option<Seg>,
 }
 
 fn generic_strategy(_: Tier) -> BoxedStrategy<Generic> {
@@ -1196,9 +1453,11 @@ fn generic_strategy(_: Tier) -> BoxedStrategy<Generic> {
         any::<bool>(),
         tamper_strategy(10),
         prop::bool::weighted(0.3),
+        opt_seg_strategy(0.28),
     )
-        .prop_map(|((ct, opts), content, (ee, eval, process), strict, tamper, issuer_revoked)| Generic {
+        .prop_map(|((ct, opts), content, (ee, eval, process), strict, tamper, issuer_revoked, seg)| Generic {
             ct, content, opts, ee, strict, eval, process, tamper, issuer_revoked,
+            seg: if strict { None } else { seg },
         })
         .boxed()
 }
@@ -1206,31 +1465,54 @@ fn generic_strategy(_: Tier) -> BoxedStrategy<Generic> {
 fn run_generic(c: &Generic, obs: &mut Obs) -> CheckResult {
     let ct = c.ct.bytes();
     let content = c.content.bytes();
-    let (bytes, attrs_len) = assemble(&ct, &content, &c.ee, c.opts, c.tamper)?;
-    check_own_verifier(&bytes, c.tamper)?;
+    // never in strict mode: DER has no constructed OCTET STRING
+    let seg = if c.strict { None } else { c.seg.as_ref() };
+    let dishonest = label_seg(obs, seg, &content);
+    let (bytes, attrs_len) = assemble_seg(&ct, &content, &c.ee, c.opts, c.tamper, seg)?;
+    check_own_verifier_seg(&bytes, c.tamper, dishonest)?;
     let issuer = issuer_for(&c.ee, c.tamper);
     let res_ok = validated(&c.ee).is_some();
     let via_process = c.process.is_some() && window_is_wide(&c.ee);
     let t = c.eval.time(c.ee.nb, c.ee.na);
     let in_window = via_process || (c.ee.nb <= t && t <= c.ee.na);
     let crl_ok = if via_process { c.process.unwrap_or(true) } else { true };
-    let expect = c.tamper == Tamper::None && in_window && res_ok && crl_ok;
+    let expect = c.tamper == Tamper::None && in_window && res_ok && crl_ok && !dishonest;
     let crl = CrlOracle::new(!crl_ok, c.issuer_revoked);
 
-    let got: Result<(), String> = match SignedObject::decode(bytes.as_slice(), c.strict) {
+    // Ok: the content(s) the library hands out for the accepted object
+    let got: Result<Vec<Bytes>, String> = match SignedObject::decode(bytes.as_slice(), c.strict) {
         Err(e) => Err(format!("decode: {}", e)),
         Ok(obj) => {
-            if obj.content().to_bytes().as_ref() != content.as_slice() && c.tamper == Tamper::None {
-                return Err(Fail::new("decoded content differs from the encoded content"));
+            let held = obj.content().to_bytes();
+            if held.as_ref() != content.as_slice() && c.tamper == Tamper::None {
+                return Err(Fail::new(format!(
+                    "decoded content differs from the encoded content ({} octets in {} segments written, content() has {} octets)",
+                    content.len(), seg.map(|s| s.segments(&content).len()).unwrap_or(1), held.len()
+                )));
             }
+            let pieces: Vec<u8> = obj.content().iter().flatten().copied().collect();
+            ensure!(
+                pieces.as_slice() == held.as_ref() && obj.content().len() == held.len(),
+                "content().iter() / len() / to_bytes() of the decoded object disagree"
+            );
             if via_process {
-                obj.process(issuer, c.strict, crl.callback()).map(|_| ()).map_err(|e| e.to_string())
+                obj.process(issuer, c.strict, crl.callback()).map(|(_, out)| vec![held, out]).map_err(|e| e.to_string())
             } else {
-                obj.validate_at(issuer, c.strict, lib_time(t)).map(|_| ()).map_err(|e| e.to_string())
+                obj.validate_at(issuer, c.strict, lib_time(t)).map(|_| vec![held]).map_err(|e| e.to_string())
             }
         }
     };
-    label_common(obs, c.tamper, attrs_len, expect, c.strict);
+    if let Ok(handed_out) = &got {
+        for out in handed_out {
+            check_accepted_digest("generic", &bytes, c.tamper, Some(out.as_ref()))?;
+            if c.tamper == Tamper::None {
+                ensure!(out.as_ref() == content.as_slice(), "the content handed out for the accepted object is not the encoded content");
+            }
+        }
+    }
+    let got: Result<(), String> = got.map(|_| ());
+    obs.label_if(seg.is_some() && expect && got.is_ok(), "seg:honest-accepted");
+    label_common_seg(obs, c.tamper, attrs_len, expect, seg.is_some(), c.strict);
     obs.label(match c.ct { Ct::Other(_) => "ct:arbitrary", _ => "ct:registered" });
     obs.label_if(!in_window, "out-of-window");
     obs.label_if(!res_ok, "ee-overclaim");
@@ -1255,9 +1537,12 @@ fn run_generic(c: &Generic, obs: &mut Obs) -> CheckResult {
         "order:st,md,ct"
     });
     obs.label_if(ct.len() >= 128, "ct-oid>=128");
-    obs.nontrivial_if(attrs_len >= 128 || c.tamper != Tamper::None);
-    compare("generic", expect, &got, attrs_len, &|| {
-        format!("tamper={:?} eval={:?} in_window={} res_ok={} crl_ok={} strict={}", c.tamper, c.eval, in_window, res_ok, crl_ok, c.strict)
+    obs.nontrivial_if(attrs_len >= 128 || c.tamper != Tamper::None || dishonest);
+    compare_seg("generic", expect, seg.is_some(), &got, attrs_len, &|| {
+        format!(
+            "tamper={:?} eval={:?} in_window={} res_ok={} crl_ok={} strict={} segments={:?} digest-over-part={}",
+            c.tamper, c.eval, in_window, res_ok, crl_ok, c.strict, seg.map(|s| s.lens(content.len())), dishonest
+        )
     })
 }
 
@@ -1285,6 +1570,9 @@ pub struct RoaCase {
     /// the revocation set also holds the issuer certificate's serial
     #[serde(default)]
     pub issuer_revoked: bool,
+    /// eContent in BER constructed form (independent writer, `strict == false` only)
+    #[serde(default)]
+    pub seg: Option<Seg>,
 }
 
 /// ROA prefix drawn relative to the EE's (or issuer's) blocks.
@@ -1324,9 +1612,10 @@ fn roa_strategy(_: Tier) -> BoxedStrategy<RoaCase> {
         opts_strategy(),
         any::<bool>(),
         (prop::bool::weighted(0.85), prop::bool::weighted(0.3)),
-        tamper_strategy(40),
+        (tamper_strategy(40), opt_seg_strategy(0.3)),
     )
-        .prop_map(|(builder, as_id, r4, r6, mut ee, opts, strict, (crl_ok, issuer_revoked), tamper)| {
+        .prop_map(|(builder, as_id, r4, r6, mut ee, opts, strict, (crl_ok, issuer_revoked), (tamper, seg))| {
+            let seg = if strict || builder { None } else { seg };
             // the EE of a ROA has no AS resources
             ee.asn = AsRes::Missing;
             let mut ee = ee.normalize();
@@ -1368,7 +1657,7 @@ fn roa_strategy(_: Tier) -> BoxedStrategy<RoaCase> {
                     tamper = Tamper::None;
                 }
             }
-            RoaCase { builder, as_id, v4, v6, ee, opts, strict, crl_ok, tamper, issuer_revoked }
+            RoaCase { builder, as_id, v4, v6, ee, opts, strict, crl_ok, tamper, issuer_revoked, seg }
         })
         .boxed()
 }
@@ -1415,6 +1704,8 @@ fn run_roa(c: &RoaCase, obs: &mut Obs) -> CheckResult {
     let issuer_idx = c.ee.issuer as usize % POOL_SIZE;
     let mut all: Vec<(bool, RoaP)> = c.v4.iter().map(|r| (false, *r)).collect();
     all.extend(c.v6.iter().map(|r| (true, *r)));
+    let seg = if c.strict || c.builder { None } else { c.seg.as_ref() };
+    let mut dishonest = false;
     let (bytes, attrs_len, val) = if c.builder {
         let mut b = RoaBuilder::new(Asn::from_u32(c.as_id));
         for r in &c.v4 {
@@ -1443,8 +1734,9 @@ fn run_roa(c: &RoaCase, obs: &mut Obs) -> CheckResult {
         let v4: Vec<RoaPfx> = c.v4.iter().map(|r| RoaPfx { bits: r.p.bits.0, len: r.p.len, max_len: r.max_len }).collect();
         let v6: Vec<RoaPfx> = c.v6.iter().map(|r| RoaPfx { bits: r.p.bits.0, len: r.p.len, max_len: r.max_len }).collect();
         let content = der::roa_content(c.as_id, &v4, &v6, false);
-        let (bytes, attrs_len) = assemble(oids::CT_ROA, &content, &c.ee, c.opts, c.tamper)?;
-        check_own_verifier(&bytes, c.tamper)?;
+        dishonest = label_seg(obs, seg, &content);
+        let (bytes, attrs_len) = assemble_seg(oids::CT_ROA, &content, &c.ee, c.opts, c.tamper, seg)?;
+        check_own_verifier_seg(&bytes, c.tamper, dishonest)?;
         (bytes, attrs_len, validated(&c.ee))
     };
     let wide = window_is_wide(&c.ee);
@@ -1453,7 +1745,7 @@ fn run_roa(c: &RoaCase, obs: &mut Obs) -> CheckResult {
         None => false,
         Some(v) => all.iter().all(|(v6, r)| within((r.p.min(), r.p.max()), if *v6 { &v.v6 } else { &v.v4 })),
     };
-    let expect = c.tamper == Tamper::None && val.is_some() && covered && c.crl_ok;
+    let expect = c.tamper == Tamper::None && val.is_some() && covered && c.crl_ok && !dishonest;
     let issuer = issuer_for(&c.ee, c.tamper);
     let crl = CrlOracle::new(!c.crl_ok, c.issuer_revoked);
     let got: Result<(), String> = match Roa::decode(bytes.as_slice(), c.strict) {
@@ -1470,11 +1762,13 @@ fn run_roa(c: &RoaCase, obs: &mut Obs) -> CheckResult {
                     all.iter().map(|(v6, r)| (*v6, r.p.min(), r.p.len, r.max_len.unwrap_or(r.p.len))).collect();
                 ensure_eq!(got, exp, "prefixes of the accepted ROA");
                 ensure_eq!(att.as_id().into_u32(), c.as_id, "AS of the accepted ROA");
+                check_accepted_digest("roa", &bytes, c.tamper, None)?;
                 Ok(())
             }
         },
     };
-    label_common(obs, c.tamper, attrs_len, expect, c.strict);
+    obs.label_if(seg.is_some() && expect && got.is_ok(), "seg:honest-accepted");
+    label_common_seg(obs, c.tamper, attrs_len, expect, seg.is_some(), c.strict);
     obs.label(if c.builder { "writer:RoaBuilder" } else { "writer:der.rs" });
     obs.label_if(val.is_none(), "ee-overclaim");
     obs.label_if(val.is_some() && !covered, "uncovered-prefix");
@@ -1483,9 +1777,12 @@ fn run_roa(c: &RoaCase, obs: &mut Obs) -> CheckResult {
     obs.label_if(c.issuer_revoked, "crl-issuer-serial-listed");
     obs.label_if(c.ee.trim, "ee-trim");
     crl.check("roa", &bytes, got.is_ok())?;
-    obs.nontrivial_if(all.len() >= 2 || c.tamper != Tamper::None || attrs_len >= 128);
-    compare("roa", expect, &got, attrs_len, &|| {
-        format!("tamper={:?} ee_ok={} covered={} crl_ok={} validated={:?}", c.tamper, val.is_some(), covered, c.crl_ok, val)
+    obs.nontrivial_if(all.len() >= 2 || c.tamper != Tamper::None || attrs_len >= 128 || dishonest);
+    compare_seg("roa", expect, seg.is_some(), &got, attrs_len, &|| {
+        format!(
+            "tamper={:?} ee_ok={} covered={} crl_ok={} digest-over-part-of-segments={} validated={:?}",
+            c.tamper, val.is_some(), covered, c.crl_ok, dishonest, val
+        )
     })
 }
 
@@ -1505,6 +1802,9 @@ pub struct AspaCase {
     /// the revocation set also holds the issuer certificate's serial
     #[serde(default)]
     pub issuer_revoked: bool,
+    /// eContent in BER constructed form (independent writer, `strict == false` only)
+    #[serde(default)]
+    pub seg: Option<Seg>,
 }
 
 fn aspa_strategy(_: Tier) -> BoxedStrategy<AspaCase> {
@@ -1538,22 +1838,25 @@ fn aspa_strategy(_: Tier) -> BoxedStrategy<AspaCase> {
         opts_strategy(),
         any::<bool>(),
         (prop::bool::weighted(0.85), prop::bool::weighted(0.3)),
-        tamper_strategy(40),
+        (tamper_strategy(40), opt_seg_strategy(0.3)),
     )
-        .prop_map(|(builder, customer, providers, ee, opts, strict, (crl_ok, issuer_revoked), tamper)| {
+        .prop_map(|(builder, customer, providers, ee, opts, strict, (crl_ok, issuer_revoked), (tamper, seg))| {
+            let seg = if strict || builder { None } else { seg };
             let mut providers: Vec<u32> = providers.into_iter().filter(|&p| p != customer).collect();
             if providers.is_empty() {
                 providers.push(customer.wrapping_add(1));
             }
             providers.sort_unstable();
             let tamper = if builder && !tamper.post_hoc() { Tamper::None } else { tamper };
-            AspaCase { builder, customer, providers, ee, opts, strict, crl_ok, tamper, issuer_revoked }
+            AspaCase { builder, customer, providers, ee, opts, strict, crl_ok, tamper, issuer_revoked, seg }
         })
         .boxed()
 }
 
 fn run_aspa(c: &AspaCase, obs: &mut Obs) -> CheckResult {
     let issuer_idx = c.ee.issuer as usize % POOL_SIZE;
+    let seg = if c.strict || c.builder { None } else { c.seg.as_ref() };
+    let mut dishonest = false;
     let (bytes, attrs_len, spec) = if c.builder {
         let b = AspaBuilder::new(Asn::from_u32(c.customer), c.providers.iter().map(|&p| Asn::from_u32(p)).collect::<Vec<_>>())
             .map_err(|e| Fail::new(format!("AspaBuilder::new: {}", e)))?;
@@ -1574,8 +1877,9 @@ fn run_aspa(c: &AspaCase, obs: &mut Obs) -> CheckResult {
         (bytes, attrs_len, spec)
     } else {
         let content = der::aspa_content(c.customer, &c.providers);
-        let (bytes, attrs_len) = assemble(oids::CT_ASPA, &content, &c.ee, c.opts, c.tamper)?;
-        check_own_verifier(&bytes, c.tamper)?;
+        dishonest = label_seg(obs, seg, &content);
+        let (bytes, attrs_len) = assemble_seg(oids::CT_ASPA, &content, &c.ee, c.opts, c.tamper, seg)?;
+        check_own_verifier_seg(&bytes, c.tamper, dishonest)?;
         (bytes, attrs_len, c.ee.clone())
     };
     ensure!(window_is_wide(&c.ee), "harness: ASPA case without a wide validity window");
@@ -1583,7 +1887,7 @@ fn run_aspa(c: &AspaCase, obs: &mut Obs) -> CheckResult {
     let customer_in = val.as_ref().map(|v| within((c.customer as u128, c.customer as u128), &v.asn)).unwrap_or(false);
     let no_ip = spec.v4 == Res::Missing && spec.v6 == Res::Missing;
     let no_inherit = spec.asn != AsRes::Inherit;
-    let expect = c.tamper == Tamper::None && val.is_some() && customer_in && no_ip && no_inherit && c.crl_ok;
+    let expect = c.tamper == Tamper::None && val.is_some() && customer_in && no_ip && no_inherit && c.crl_ok && !dishonest;
     let issuer = issuer_for(&c.ee, c.tamper);
     let crl = CrlOracle::new(!c.crl_ok, c.issuer_revoked);
     let got: Result<(), String> = match Aspa::decode(bytes.as_slice(), c.strict) {
@@ -1594,11 +1898,13 @@ fn run_aspa(c: &AspaCase, obs: &mut Obs) -> CheckResult {
                 ensure_eq!(att.customer_as().into_u32(), c.customer, "customer of the accepted ASPA");
                 let prov: Vec<u32> = att.provider_as_set().iter().map(|a| a.into_u32()).collect();
                 ensure_eq!(prov, c.providers, "providers of the accepted ASPA");
+                check_accepted_digest("aspa", &bytes, c.tamper, None)?;
                 Ok(())
             }
         },
     };
-    label_common(obs, c.tamper, attrs_len, expect, c.strict);
+    obs.label_if(seg.is_some() && expect && got.is_ok(), "seg:honest-accepted");
+    label_common_seg(obs, c.tamper, attrs_len, expect, seg.is_some(), c.strict);
     obs.label(if c.builder { "writer:AspaBuilder" } else { "writer:der.rs" });
     obs.label_if(val.is_none(), "ee-overclaim");
     obs.label_if(val.is_some() && !customer_in, "customer-outside");
@@ -1608,11 +1914,11 @@ fn run_aspa(c: &AspaCase, obs: &mut Obs) -> CheckResult {
     obs.label_if(!c.crl_ok, "crl-callback-err");
     obs.label_if(c.issuer_revoked, "crl-issuer-serial-listed");
     crl.check("aspa", &bytes, got.is_ok())?;
-    obs.nontrivial_if(c.providers.len() >= 2 || c.tamper != Tamper::None || attrs_len >= 128);
-    compare("aspa", expect, &got, attrs_len, &|| {
+    obs.nontrivial_if(c.providers.len() >= 2 || c.tamper != Tamper::None || attrs_len >= 128 || dishonest);
+    compare_seg("aspa", expect, seg.is_some(), &got, attrs_len, &|| {
         format!(
-            "tamper={:?} ee_ok={} customer_in={} no_ip={} no_inherit={} crl_ok={}",
-            c.tamper, val.is_some(), customer_in, no_ip, no_inherit, c.crl_ok
+            "tamper={:?} ee_ok={} customer_in={} no_ip={} no_inherit={} crl_ok={} digest-over-part-of-segments={}",
+            c.tamper, val.is_some(), customer_in, no_ip, no_inherit, c.crl_ok, dishonest
         )
     })
 }
@@ -1632,6 +1938,9 @@ pub struct MftCase {
     pub strict: bool,
     pub eval: Eval,
     pub tamper: Tamper,
+    /// eContent in BER constructed form (independent writer, `strict == false` only)
+    #[serde(default)]
+    pub seg: Option<Seg>,
 }
 
 fn mft_strategy(_: Tier) -> BoxedStrategy<MftCase> {
@@ -1647,15 +1956,16 @@ fn mft_strategy(_: Tier) -> BoxedStrategy<MftCase> {
         opts_strategy(),
         any::<bool>(),
         eval_strategy(),
-        tamper_strategy(30),
+        (tamper_strategy(30), opt_seg_strategy(0.3)),
     )
-        .prop_map(|(builder, number, this_update, d, entries, mut ee, opts, strict, eval, tamper)| {
+        .prop_map(|(builder, number, this_update, d, entries, mut ee, opts, strict, eval, (tamper, seg))| {
+            let seg = if strict || builder { None } else { seg };
             // RFC 9286: manifest EE certificates inherit
             ee.v4 = Res::Inherit;
             ee.v6 = Res::Inherit;
             ee.asn = AsRes::Inherit;
             let tamper = if builder && !tamper.post_hoc() { Tamper::None } else { tamper };
-            MftCase { builder, number, this_update, next_update: this_update + d, entries, ee: ee.normalize(), opts, strict, eval, tamper }
+            MftCase { builder, number, this_update, next_update: this_update + d, entries, ee: ee.normalize(), opts, strict, eval, tamper, seg }
         })
         .boxed()
 }
@@ -1666,6 +1976,8 @@ fn hash_of_seed(seed: u8) -> [u8; 32] {
 
 fn run_mft(c: &MftCase, obs: &mut Obs) -> CheckResult {
     let issuer_idx = c.ee.issuer as usize % POOL_SIZE;
+    let seg = if c.strict || c.builder { None } else { c.seg.as_ref() };
+    let mut dishonest = false;
     let (bytes, attrs_len) = if c.builder {
         let content = ManifestContent::new(
             c.number.into(),
@@ -1695,13 +2007,14 @@ fn run_mft(c: &MftCase, obs: &mut Obs) -> CheckResult {
             &entries,
             false,
         );
-        let (bytes, attrs_len) = assemble(oids::CT_MFT, &content, &c.ee, c.opts, c.tamper)?;
-        check_own_verifier(&bytes, c.tamper)?;
+        dishonest = label_seg(obs, seg, &content);
+        let (bytes, attrs_len) = assemble_seg(oids::CT_MFT, &content, &c.ee, c.opts, c.tamper, seg)?;
+        check_own_verifier_seg(&bytes, c.tamper, dishonest)?;
         (bytes, attrs_len)
     };
     let t = c.eval.time(c.ee.nb, c.ee.na);
     let in_window = c.ee.nb <= t && t <= c.ee.na;
-    let expect = c.tamper == Tamper::None && in_window;
+    let expect = c.tamper == Tamper::None && in_window && !dishonest;
     let issuer = issuer_for(&c.ee, c.tamper);
     let got: Result<(), String> = match Manifest::decode(bytes.as_slice(), c.strict) {
         Err(e) => Err(format!("decode: {}", e)),
@@ -1713,15 +2026,19 @@ fn run_mft(c: &MftCase, obs: &mut Obs) -> CheckResult {
                     c.entries.iter().map(|(n, s)| (n.clone().into_bytes(), hash_of_seed(*s).to_vec())).collect();
                 ensure_eq!(got, exp, "entries of the accepted manifest");
                 ensure_eq!(content.len(), c.entries.len(), "len() of the accepted manifest");
+                check_accepted_digest("manifest", &bytes, c.tamper, None)?;
                 Ok(())
             }
         },
     };
-    label_common(obs, c.tamper, attrs_len, expect, c.strict);
+    obs.label_if(seg.is_some() && expect && got.is_ok(), "seg:honest-accepted");
+    label_common_seg(obs, c.tamper, attrs_len, expect, seg.is_some(), c.strict);
     obs.label(if c.builder { "writer:into_manifest" } else { "writer:der.rs" });
     obs.label_if(!in_window, "out-of-window");
-    obs.nontrivial_if(c.entries.len() >= 2 || c.tamper != Tamper::None);
-    compare("manifest", expect, &got, attrs_len, &|| format!("tamper={:?} eval={:?} in_window={}", c.tamper, c.eval, in_window))
+    obs.nontrivial_if(c.entries.len() >= 2 || c.tamper != Tamper::None || dishonest);
+    compare_seg("manifest", expect, seg.is_some(), &got, attrs_len, &|| {
+        format!("tamper={:?} eval={:?} in_window={} digest-over-part-of-segments={}", c.tamper, c.eval, in_window, dishonest)
+    })
 }
 
 //============ sub-check: built (SignedObjectBuilder, arbitrary content type) ====
@@ -1778,10 +2095,17 @@ fn run_built(c: &BuiltCase, obs: &mut Obs) -> CheckResult {
     let in_window = c.ee.nb <= t && t <= c.ee.na;
     let expect = c.tamper == Tamper::None && in_window && res_ok;
     let issuer = issuer_for(&c.ee, c.tamper);
-    let got: Result<(), String> = match SignedObject::decode(bytes.as_slice(), c.strict) {
+    let got: Result<Bytes, String> = match SignedObject::decode(bytes.as_slice(), c.strict) {
         Err(e) => Err(format!("decode: {}", e)),
-        Ok(o) => o.validate_at(issuer, c.strict, lib_time(t)).map(|_| ()).map_err(|e| e.to_string()),
+        Ok(o) => {
+            let held = o.content().to_bytes();
+            o.validate_at(issuer, c.strict, lib_time(t)).map(|_| held).map_err(|e| e.to_string())
+        }
     };
+    if let Ok(held) = &got {
+        check_accepted_digest("built", &bytes, c.tamper, Some(held.as_ref()))?;
+    }
+    let got: Result<(), String> = got.map(|_| ());
     label_common(obs, c.tamper, attrs_len, expect, c.strict);
     obs.label_if(!in_window, "out-of-window");
     obs.label_if(!res_ok, "ee-overclaim");
@@ -1834,7 +2158,23 @@ const TAMPER_FLOORS: &[(&str, f64)] = &[
     ("order:st,md,ct", 0.1),
     ("order:st,ct,md", 0.1),
     ("order:ct,st,md", 0.05),
+    // BER-segmented eContent: shares of all cases (half of them are relaxed)
+    ("seg", 0.06),
+    ("seg:honest", 0.03),
+    ("seg:honest-empty-before-data", 0.015),
+    ("seg:dishonest", 0.03),
+    ("seg:digest-before-empty", 0.015),
+    ("seg:digest-prefix", 0.01),
+    ("seg:digest-suffix", 0.004),
+    ("seg:>=3-segments", 0.05),
+    ("seg:indefinite", 0.01),
 ];
+
+/// Floors of the typed sub-checks for BER-segmented eContent (independent
+/// writer, relaxed decoding).
+const SEG: (&str, f64) = ("seg", 0.04);
+const SEG_DISHONEST: (&str, f64) = ("seg:dishonest", 0.02);
+const SEG_BEFORE_EMPTY: (&str, f64) = ("seg:digest-before-empty", 0.008);
 
 pub fn property() -> Property {
     Property {
@@ -1844,7 +2184,7 @@ pub fn property() -> Property {
             "RSA PKCS#1 v1.5 / SHA-256 of aws-lc-rs (used directly by the harness) is correct; any change of a signed byte or of the signature value must be rejected",
             "EE and trust-anchor certificates are built with the library's TbsCert (their validation is property C01)",
             "Roa::process / Aspa::process / SignedObject::process read the wall clock: those cases use EE validity 2020-01-01..2045-01-01",
-            "acceptance is only demanded for RFC-conformant encodings (DER, attributes in SET OF order, signing time UTCTime through 2049)",
+            "acceptance is only demanded for RFC-conformant encodings (DER, attributes in SET OF order, signing time UTCTime through 2049); an object whose eContent is a BER constructed OCTET STRING may be accepted or rejected in relaxed mode, but it must be rejected if any condition of the property is violated, and what is handed out for an accepted one is the concatenation of its segments",
         ],
         subs: vec![
             EnumSub { name: "der-selfcheck", count: |_, _| 1, make: |_, _, idx| Unit { idx }, run: run_selfcheck, exhaustive: false }.boxed(),
@@ -1873,6 +2213,9 @@ pub fn property() -> Property {
                     ("ee-trim", 0.08),
                     ("tamper:digest-short", 0.01),
                     ("tamper:digest-long", 0.008),
+                    SEG,
+                    SEG_DISHONEST,
+                    SEG_BEFORE_EMPTY,
                 ],
             }
             .boxed(),
@@ -1892,6 +2235,9 @@ pub fn property() -> Property {
                     ("crl-issuer-serial-listed", 0.12),
                     ("tamper:digest-short", 0.01),
                     ("tamper:digest-long", 0.008),
+                    SEG,
+                    SEG_DISHONEST,
+                    SEG_BEFORE_EMPTY,
                 ],
             }
             .boxed(),
@@ -1907,6 +2253,9 @@ pub fn property() -> Property {
                     ("tamper:sid", 0.006),
                     ("tamper:digest-short", 0.012),
                     ("tamper:digest-long", 0.01),
+                    SEG,
+                    SEG_DISHONEST,
+                    SEG_BEFORE_EMPTY,
                 ],
             }
             .boxed(),
